@@ -2,7 +2,7 @@ SPEC = {
     "id": "C04",
     "props_module": "NDB.Props.C04",
     "corr_modules": ["NDB.Corr.C04"],
-    "theorems": ["C04_refuted", "C04_order_fixed"],
+    "theorems": ["C04_refuted", "C04_order_fixed", "C04_reopen_partial", "C04_replay_commit"],
     "allowed_axioms": [],
     "harness_pkg": "hx_engine",
     "harness_bin": "engine",
@@ -22,7 +22,7 @@ SPEC = {
 ],
     "manifest": {
         "category": "proof",
-        "text": "Refuted: C04_refuted (labels added/removed after creation are lost once the transaction is at or below the checkpoint or the log is rewritten by close: K-C04-labels). Repaired: delete-then-recreate of a relationship in one transaction vanished after reopen (WAL record order, fix 060a936); C04_order_fixed replays the old witness in the model of the repaired code and the witness runs first in the corpus. NOT proved: replay reproduces the runs for all histories (sampled only: every close/drop + reopen step must leave the dump unchanged; model = implementation incl. txid/checkpoint bookkeeping checked in Coq).",
+        "text": "Proved for ALL histories of the fragment grow_hist (see C06; C04_reopen_partial): close + reopen and drop + reopen leave the canonical dump unchanged \u2014 replaying the logged records of a commit rebuilds its memtable exactly (C04_replay_commit), recovery rebuilds the published runs, their transaction ids and the interner (invariant WalInv), and a close with nothing published rewrites the log as one snapshot transaction from which recovery yields the same state. Refuted in general: C04_refuted (labels added/removed after creation are lost once the transaction is at or below the checkpoint or the log is rewritten by close: K-C04-labels). Repaired: delete-then-recreate of a relationship in one transaction vanished after reopen (WAL record order, fix 060a936; C04_order_fixed replays the old witness in the model of the repaired code; corpus case 0). NOT proved: histories with compaction before the reopen, deletes, label changes, abandoned transactions \u2014 sampled only (every close/drop + reopen step must leave the dump unchanged; model = implementation incl. txid/checkpoint bookkeeping checked in Coq).",
         "design_ref": "DESIGN.md §5 C04 (Storage: logical content)",
         "level_note": "Trusted: Coq kernel; hand-written model tied to the code by sampled correspondence (not by proof). The full statement is REFUTED on the pinned code (witness theorem, reproduced on the implementation, recorded as known findings); conditional theorems cover only the part stated in the text.",
         "technique": "Rocq: executable faithful model + spec graph, refutation witnesses by vm_compute, invariants by induction over histories; vm_compute model/implementation correspondence on generated histories; direct search against a reference graph / erased or stripped re-runs on the implementation",
